@@ -150,3 +150,143 @@ pub(crate) fn canary_must_fail() {
     let r = interpolate_value(&[&s, &e], 0.5);
     assert!(r.x >= 20.0, "canary: deliberately false");
 }
+
+// -- support for the derive-output harnesses (mina crate, tests/verif_derive.rs) -----------------
+// The generated timeline is verified modularly: its callees `prepare_frame`,
+// `SubTimeline::{value_at, override_start_value, from_keyframes}` are replaced by the scripted /
+// recording functions below, so the harness proves the *generated glue* against every possible
+// behaviour of the callees (their own behaviour is what the other layers prove).
+
+pub mod derive_support {
+    use super::*;
+    use crate::time_scale::TimeScale;
+    use crate::timeline::Keyframe;
+
+    pub static mut VA_CALLS: u32 = 0;
+    pub static mut VA_NT: f32 = 0.0;
+    pub static mut VA_IDX: usize = 0;
+    pub static mut VA_FLAG: bool = false;
+    pub static mut VA_CONSISTENT: bool = true;
+
+    pub static mut PF_RESULT_SOME: bool = false;
+    pub static mut PF_NT: f32 = 0.0;
+    pub static mut PF_IDX: usize = 0;
+    pub static mut PF_FLAG: bool = false;
+    pub static mut PF_CALLS: u32 = 0;
+    pub static mut PF_TIME: f32 = 0.0;
+    pub static mut PF_BT_LEN: usize = 0;
+    pub static mut PF_TS_DELAY: f32 = 0.0;
+
+    pub fn reset() {
+        unsafe {
+            VA_CALLS = 0;
+            VA_CONSISTENT = true;
+            PF_CALLS = 0;
+        }
+    }
+
+    impl<V: Clone> SubTimeline<V> {
+        /// A sub-timeline whose (stubbed) `value_at` answers `answer`.
+        pub fn verif_scripted(answer: Option<V>) -> Self {
+            match answer {
+                Some(v) => SubTimeline {
+                    frames: vec![SplitKeyframe::new(0.0, v, Easing::Linear)],
+                    frame_index_map: vec![0],
+                    start_frame_override: None,
+                },
+                None => SubTimeline { frames: vec![], frame_index_map: vec![], start_frame_override: None },
+            }
+        }
+        pub fn verif_override_value(&self) -> Option<V> {
+            self.start_frame_override.as_ref().map(|f| f.value.clone())
+        }
+        pub fn verif_frame_value(&self, i: usize) -> Option<V> {
+            self.frames.get(i).map(|f| f.value.clone())
+        }
+        pub fn verif_map_len(&self) -> usize {
+            self.frame_index_map.len()
+        }
+    }
+
+    /// Stub for `SubTimeline::value_at`: scripted answer, arguments recorded.
+    pub fn value_at_stub<Value: Clone + Lerp>(s: &SubTimeline<Value>, normalized_time: f32, index_hint: usize, enable_start_override: bool) -> Option<Value> {
+        unsafe {
+            if VA_CALLS == 0 {
+                VA_NT = normalized_time;
+                VA_IDX = index_hint;
+                VA_FLAG = enable_start_override;
+            } else if !(VA_NT == normalized_time && VA_IDX == index_hint && VA_FLAG == enable_start_override) {
+                VA_CONSISTENT = false;
+            }
+            VA_CALLS += 1;
+        }
+        if s.frame_index_map.is_empty() {
+            None
+        } else {
+            Some(s.frames[0].value.clone())
+        }
+    }
+
+    /// Stub for `SubTimeline::override_start_value`: records the value unconditionally.
+    pub fn override_start_value_stub<Value: Clone + Lerp>(s: &mut SubTimeline<Value>, value: Value) {
+        s.start_frame_override = Some(SplitKeyframe::new(0.0, value, Easing::Linear));
+    }
+
+    /// Stub for `prepare_frame`: scripted result, arguments recorded.
+    pub fn prepare_frame_stub(time: f32, boundary_times: &[f32], timescale: &TimeScale) -> Option<(f32, usize, bool)> {
+        unsafe {
+            PF_CALLS += 1;
+            PF_TIME = time;
+            PF_BT_LEN = boundary_times.len();
+            PF_TS_DELAY = timescale.get_delay();
+            if PF_RESULT_SOME {
+                Some((PF_NT, PF_IDX, PF_FLAG))
+            } else {
+                None
+            }
+        }
+    }
+
+    impl<Value: Clone + Lerp> SubTimeline<Value> {
+        /// Stub for `SubTimeline::from_keyframes` (same generic structure as the original, which
+        /// Kani's stubbing requires): frame 0 carries the default value it was given, frame 1 the
+        /// value the getter extracts from the FIRST keyframe (or the default), the map length is
+        /// the number of keyframes it was handed.
+        pub fn verif_from_keyframes_stub<'a, Data: 'a + Clone + std::fmt::Debug, ValueFn>(
+            keyframes: impl IntoIterator<Item = &'a Keyframe<Data>>,
+            default_value: Value,
+            get_value: ValueFn,
+            default_easing: Easing,
+        ) -> Self
+        where
+            ValueFn: Fn(&Data) -> Option<Value>,
+        {
+            let mut n = 0usize;
+            let mut first: Option<Value> = None;
+            for kf in keyframes.into_iter() {
+                if n == 0 {
+                    first = get_value(&kf.data);
+                }
+                n += 1;
+            }
+            let second = match first {
+                Some(v) => v,
+                None => default_value.clone(),
+            };
+            let mut map = Vec::new();
+            let mut i = 0;
+            while i < n {
+                map.push(0usize);
+                i += 1;
+            }
+            SubTimeline {
+                frames: vec![
+                    SplitKeyframe::new(0.0, default_value, default_easing.clone()),
+                    SplitKeyframe::new(1.0, second, default_easing),
+                ],
+                frame_index_map: map,
+                start_frame_override: None,
+            }
+        }
+    }
+}
